@@ -23,7 +23,7 @@ pub static DEF: PropDef = PropDef {
     level: "exploration",
     total: |t| t.pick(768, 25600),
     run,
-    rule: "2..6 machines on one network, with or without ARP, 0..4 recording applications each, bindings drawn from {own address, another machine's address, 0.0.0.0, 255.255.255.255} x 4 ports (so exact/wildcard competition and repeated binds are frequent), 1..30 datagrams from random senders to (address, port) pairs over the same sets plus unbound ports, 127.0.0.1 and unclaimed addresses, payloads of 0, 1, MTU-28 and MTU-27 (must be refused) bytes, latency 0..5 ms so arrivals interleave. For every datagram the H4 hook tells which taps the frame reached; on each such machine (and on the sender itself for loopback) the expected receiver is computed by a reference rule (exact binding, else wildcard, else nobody) and compared with the demux events actually recorded, including payload, source/destination address and port in Control. Non-trivial = configuration with an exact/wildcard competition on one machine AND a datagram for which no binding exists; distinct by configuration hash.",
+    rule: "2..6 machines on one network, ARP on none, all or a random subset of them, 0..4 recording applications each, bindings drawn from {own address, another machine's address, 0.0.0.0, 255.255.255.255} x 4 ports (so exact/wildcard competition and repeated binds are frequent), 1..30 datagrams from random senders to (address, port) pairs over the same sets plus unbound ports, 127.0.0.1 and unclaimed addresses, payloads of 0, 1, MTU-28 and MTU-27 (must be refused) bytes, latency 0..5 ms so arrivals interleave. For every datagram the H4 hook tells which taps the frame reached; on each such machine (and on the sender itself for loopback) the expected receiver is computed by a reference rule (exact binding, else wildcard, else nobody) and compared with the demux events actually recorded, including payload, source/destination address and port in Control. Non-trivial = configuration with an exact/wildcard competition on one machine AND a datagram for which no binding exists; distinct by configuration hash.",
     assumptions: &[
         "which machines a frame reaches is taken from the hook's observation, not modelled (without ARP frames are broadcast at link level; with ARP they go to whoever answered the request)",
         "first binding of an endpoint on a machine wins; later binds of the same endpoint must return Err",
@@ -78,7 +78,10 @@ fn payload_of(id: u32, len: usize) -> Vec<u8> {
 fn scenario(env: &Env, k: u64, case: u64, rng: &mut rand::rngs::SmallRng, d: &mut Delta) {
     d.evaluations += 1;
     let n = rng.gen_range(2..=6usize);
-    let with_arp = rng.chance(1, 2);
+    // ARP on none, all, or an arbitrary subset of the machines (a sender without ARP broadcasts at link
+    // level, so its frames also reach machines that do run ARP)
+    let arp_mode = rng.gen_range(0..3);
+    let has_arp: Vec<bool> = (0..n).map(|_| match arp_mode { 0 => false, 1 => true, _ => rng.chance(1, 2) }).collect();
     let mtu = *rng.pick(&[100u16, 576, 1500]);
     let lat = *rng.pick(&[0u64, 1, 5]);
     let addr: Vec<u32> = (0..n).map(|m| 0x0A00_0001 + m as u32).collect();
@@ -124,7 +127,7 @@ fn scenario(env: &Env, k: u64, case: u64, rng: &mut rand::rngs::SmallRng, d: &mu
         dgrams.push(Dgram { id: id + 1, machine: m, app: a, sport: 1000 + id as u16, addr: to, port: *rng.pick(&PORTS), len, at_ms: rng.gen_range(0..40) });
     }
     let desc = json!({
-        "machines": n, "arp": with_arp, "mtu": mtu, "latency_ms": lat, "apps_per_machine": napps,
+        "machines": n, "arp": has_arp, "mtu": mtu, "latency_ms": lat, "apps_per_machine": napps,
         "binds": binds.iter().map(|b| format!("m{} app{} {}:{}", b.machine, b.app, ip(b.addr), b.port)).collect::<Vec<_>>(),
         "datagrams": dgrams.iter().map(|g| format!("#{} m{} app{} :{} -> {}:{} len {} at {}ms", g.id, g.machine, g.app, g.sport, ip(g.addr), g.port, g.len, g.at_ms)).collect::<Vec<_>>(),
         "scenario": k, "case": case,
@@ -141,6 +144,7 @@ fn scenario(env: &Env, k: u64, case: u64, rng: &mut rand::rngs::SmallRng, d: &mu
         let log = log.clone();
         let addr = addr.clone();
         let napps = napps.clone();
+        let has_arp = has_arp.clone();
         run_paused(async move {
             let mut b = NetworkBuilder::new().mtu(mtu);
             if lat > 0 {
@@ -157,7 +161,7 @@ fn scenario(env: &Env, k: u64, case: u64, rng: &mut rand::rngs::SmallRng, d: &mu
                 macs.push(pci.mac_addresses().next().unwrap());
                 let table: IpTable<Recipient> = IpTable::default_gateway(Recipient::new(0, None));
                 let mut machine = Machine::new().with(pci).with(Ipv4::new(table)).with(Udp::new());
-                if with_arp {
+                if has_arp[m] {
                     machine = machine.with(Arp::new());
                 }
                 // a machine without applications still needs its address known to ARP
